@@ -333,7 +333,11 @@ func c04API(c *Ctx) {
 	var reply proto.Message
 	var sendHeaderFirst bool
 	var fail error
+	var mdContentType string // handler header metadata under the protocol's own key: must never become the response's Content-Type
 	h := func(ctx context.Context, in *dynamicpb.Message) (proto.Message, error) {
+		if mdContentType != "" {
+			grpc.SetHeader(ctx, metadata.Pairs("content-type", mdContentType, "x-c04", "1")) //nolint
+		}
 		if sendHeaderFirst {
 			grpc.SendHeader(ctx, metadata.Pairs("x-early", "1")) //nolint
 		}
@@ -419,6 +423,10 @@ func c04API(c *Ctx) {
 		reqCT := []string{"", "application/json", "application/protobuf"}[c.Rng.Intn(3)]
 		reqGzip := c.Rng.Intn(3) == 0
 		sendHeaderFirst = c.Rng.Intn(4) == 0
+		mdContentType = ""
+		if c.Rng.Intn(5) == 0 {
+			mdContentType = []string{"application/grpc+proto", "text/plain", "application/json", "application/protobuf"}[c.Rng.Intn(4)]
+		}
 		fail = nil
 		if c.Rng.Intn(6) == 0 {
 			fail = status.Error(codes.NotFound, "scripted")
@@ -452,7 +460,7 @@ func c04API(c *Ctx) {
 			}
 			return r
 		}
-		in := fmt.Sprintf("accept=%q accept-encoding=%q reqCT=%q reqGzip=%v sendHeaderFirst=%v fail=%v", acc, aenc, reqCT, reqGzip, sendHeaderFirst, fail != nil)
+		in := fmt.Sprintf("accept=%q accept-encoding=%q reqCT=%q reqGzip=%v sendHeaderFirst=%v fail=%v handler-metadata-content-type=%q", acc, aenc, reqCT, reqGzip, sendHeaderFirst, fail != nil, mdContentType)
 		ownCT := reqCT
 		if ownCT == "" || !usePost {
 			ownCT = "application/json"
